@@ -8,7 +8,7 @@ func TestC01(t *testing.T) {
 	runProp(t, &propSpec{
 		id: "C01",
 		profile: &Profile{
-			Name: "C01", MinSteps: 6, MaxSteps: 32, MaxClient: 4, Fragments: []string{"perm", "chan", "alloc"},
+			Name: "C01", MinSteps: 6, MaxSteps: 32, MaxClient: 4, Streams: true, V6: true, Fragments: []string{"perm", "chan", "alloc"},
 			Weights: map[string]int{"Allocate": 6, "Refresh": 4, "CreatePermission": 14, "ChannelBind": 12, "Send": 22, "ChannelData": 18, "PeerData": 2, "Sleep": 14, "Binding": 1},
 		},
 		nontrivial: func(st *Stats, _ *Script) bool {
